@@ -22,7 +22,12 @@ func c09Seeds(thorough bool) []explore.Seed {
 		g.Strategies = []gen.Strategy{gen.RU(0), gen.RU(1), gen.OnDelete(), gen.OnDeleteWithBlock(1)}
 		g.Histories = coreHistories
 	}
-	return append(searchSeeds([]gridOpts{g}), c09ExtraSeeds(true)...)
+	// history to trim: unused revisions beyond a limit of 0
+	t := g
+	t.Limit, t.MaxR, t.DMax = 0, 1, 0
+	t.Histories = []history{histories[2], histories[3]}
+	t.Strategies = []gen.Strategy{gen.RU(0), gen.OnDelete()}
+	return append(append(searchSeeds([]gridOpts{g}), searchSeeds([]gridOpts{t})...), c09ExtraSeeds(true)...)
 }
 
 // c09ExtraSeeds: claims to create, orphans to adopt (pods and revisions) and,
